@@ -15,6 +15,11 @@ Case:  kind cap ilen ini... ops...
        9 m off n         append a slice of the builder's OWN current text (off, n clamped to the text): m = 0 append(c_str()+off, n);
                          1 append(toSpan().first+off, n);  2 append(c_str()+off) (n ignored, up to the first NUL);
                          3 append(caller's string .data()+off, n) (kind 1; other kinds as m = 0)
+       10 m bits n t1..tn  the double whose 64-bit pattern is bits (two's complement): m = 0 append(double); 1 append(float) of the value
+                         narrowed to float (out of float range: as m = 0); 2 xconvert(std::string& tmp, double) and 3 toString(double), the
+                         resulting string then appended with append(ptr, n).  t = the "%g" text of the value, computed by the generator
+                         (g_text below): the Coq model has no floating point and treats the op as the formatted piece t; the harness
+                         ignores t and calls the real overload; the oracle ignores t and computes the text from bits itself
 Observation: one record after the constructor and after every op:
   exc size bytes.. terminator maxSize(-1 unbounded) errno==ERANGE guards-intact
 The implementation runs every case twice on fresh builders: the records of a CLEAN pass (errno = 0 before every call; this
@@ -25,7 +30,9 @@ an earlier truncation; the errno field of these records is not compared, everyth
 The oracle is a shadow string in python (independent of the Coq model): it replays the operations on a python
 list, truncating only for the fixed kind, and compares every record of the implementation.
 """
+import math
 import random
+import struct
 
 PID = 'C17'
 HARNESS = 'h_c17'
@@ -45,6 +52,12 @@ RULE = ('cases = (kind in {sbo, std::string, fixed array, spilling array}, capac
         '"self-append" (~1700 cases: caller\'s string of 1..300 chars around the SSO limit 15/16 and the doubling points of the capacity, inline builders that stay '
         'inline / fill up / spill, builders that already spilled, spilling and fixed arrays; slices = whole text, halves, one char, room-1..room+1 of the current '
         'storage) and 10 % of the operations of the random stream; '
+        'floating-point appends (op 10: append(double), append(float), xconvert(std::string&, double), toString(double); the value is given by its 64-bit pattern, '
+        'its "%g" text is computed by the generator for the model and independently by the oracle, cross-checked against libc snprintf): stream "double-*" '
+        '(~4500 cases: ~110 values with a "%g" text of every length 1..13 - negative with six significant digits and a three-digit exponent (13 chars), '
+        '+-DBL_MAX, +-DBL_MIN, denormals, +-0, integers, the 1e-5/1e-4 and 999999.5/1e6 notation switches, FLT_MAX/FLT_MIN, +-inf, +-nan - on inline builders '
+        '(empty, text that fits exactly, spills by one char, already spilled), std::string, fixed and spilling arrays of text length +1 / +0 / +2 cells and 0/1/2/64 cells, '
+        'and sequences of three numbers) and 5 % of the operations of the random stream (random 13/12-char values, random bit patterns, decimals, small integers); '
         'EVERY case is run twice on the implementation: with errno = 0 before each call (compared with the model, errno flag judged) and with a '
         'STALE errno = ERANGE before the constructor and each call (text, size, terminator, maxSize, canaries, exceptions judged; errno flag not); '
         'non-trivial = at least one op changed the text or was truncated; distinct = distinct case tuples')
@@ -52,6 +65,8 @@ TRUSTED_BASE = ['std::string (append/resize/reserve/c_str/operator[]) modelled a
                 'vsnprintf modelled on the already formatted text: writes min(len, cap-1) chars + NUL when cap > 0, returns len',
                 'props/C17.py shadow string (oracle on the implementation); the stale-errno pass of the harness is judged by this oracle only '
                 '(the model has no errno input: a correct builder never reads errno)',
+                'printf("%g") of a double: not modelled in Coq - the text is an input of the case (python\'s \'%g\' % v, nan/-nan/inf/-inf spelled as glibc does; '
+                'equal to libc snprintf on 200000 random bit patterns); the oracle recomputes it from the bit pattern and never reads the text in the case',
                 'tools/consts/C17.py (layout constants of StringBuilder)']
 ASSUMPTIONS = ['memory does not run out (builders that may spill: text lengths far below std::string::max_size())',
                'a formatted expansion is shorter than INT_MAX and its literal parts contain neither % nor NUL',
@@ -110,6 +125,12 @@ def decode(c):
                 break
         elif o == 8:
             ops.append((8,))
+        elif o == 10:
+            if p + 3 > len(c):
+                break
+            t, q = take(c, p + 2)
+            ops.append((10, c[p], c[p + 1], t))
+            p = q
         elif o == 9:
             if p + 3 > len(c):
                 break
@@ -141,7 +162,41 @@ def encode(kind, cap, ini, ops):
             e += [8]
         elif o[0] == 9:
             e += [9, o[1], o[2], o[3]]
+        elif o[0] == 10:
+            e += [10, o[1], o[2], len(o[3])] + list(o[3])
     return e
+
+
+# ---- append(double): the reference text of "%g" ------------------------------------------------------------
+FLT_MAX = 3.4028234663852886e+38
+
+
+def dbl_of(bits):
+    return struct.unpack('<d', struct.pack('<Q', bits % TWO64))[0]
+
+
+def bits_of(v):
+    b = struct.unpack('<Q', struct.pack('<d', v))[0]
+    return b - TWO64 if b >= 2 ** 63 else b
+
+
+def g_text(m, bits):
+    """what printf("%g") prints for the value the harness passes: python's %g is C's for finite values; glibc prints
+    nan / -nan (sign bit) and inf / -inf"""
+    v = dbl_of(bits)
+    neg = (bits % TWO64) >> 63
+    if math.isnan(v):
+        return [ord(ch) for ch in ('-nan' if neg else 'nan')]
+    if math.isinf(v):
+        return [ord(ch) for ch in ('-inf' if neg else 'inf')]
+    if m == 1 and abs(v) <= FLT_MAX:
+        v = struct.unpack('<f', struct.pack('<f', v))[0]      # static_cast<float>: round to nearest even
+    return [ord(ch) for ch in '%g' % v]
+
+
+def dbl_op(m, v):
+    b = bits_of(v) if isinstance(v, float) else v
+    return (10, m, b, g_text(m, b))
 
 
 def sx32(v):
@@ -223,6 +278,8 @@ class Shadow:
             return 0, cut
         if k == 9:
             return 0, self.append(self.own_slice(o))
+        if k == 10:
+            return 0, self.append(g_text(o[1], o[2]))      # NOT o[3]: the text in the case is the model's input
         if k in (7, 8):
             n, c = (o[1] % TWO64, o[2] % 256) if k == 7 else (0, 0)
             if n > len(self.text):
@@ -276,7 +333,7 @@ def obs_equal(case, impl, model):
     return len(impl) > m and impl[m] == STALE_MARK and impl[:m] == model
 
 
-OPN = {1: 'append', 2: 'append-cstr', 3: 'append-run', 4: 'append-int', 5: 'append-uint', 6: 'format', 7: 'resize', 8: 'clear', 9: 'append-self', 0: 'ctor'}
+OPN = {1: 'append', 2: 'append-cstr', 3: 'append-run', 4: 'append-int', 5: 'append-uint', 6: 'format', 7: 'resize', 8: 'clear', 9: 'append-self', 10: 'append-double', 0: 'ctor'}
 KINDN = {0: 'sbo', 1: 'string', 2: 'fixed', 3: 'spill'}
 
 
@@ -311,6 +368,9 @@ def judge_pass(kind, cap, ini, ops, recs, stale):
         if exc != wexc:
             return ['exception-differs:' + tagk]
         if bs != sh.text or n != len(sh.text):
+            if on == 'append-double':
+                # the text of a number is wrong (a digit of the exponent lost, ...): never a mere "truncation"
+                return ['text-differs:' + tagk]
             if kind != 2 and n < len(sh.text) and bs == sh.text[:n]:
                 return ['truncated-on-unbounded-kind:' + tagk]
             if kind == 2 and bs == sh.text[:len(bs)] and len(bs) < len(sh.text):
@@ -372,6 +432,9 @@ def describe(c):
                                                     _s(o[4]) if len(o[4]) <= 24 else '<%d chars>' % len(o[4]), arg))
         elif o[0] == 7:
             ps.append('resize(%d,%r)' % (o[1] % TWO64, chr(o[2] % 256)))
+        elif o[0] == 10:
+            fn = {1: 'append((float)%s)', 2: 'xconvert(tmp, %s); append(tmp)', 3: 'append(toString(%s))'}.get(o[1], 'append(%s)')
+            ps.append(fn % ('double{0x%016x = %r}' % (o[2] % TWO64, dbl_of(o[2]))) + ' [%%g text %s]' % _short(g_text(o[1], o[2])))
         elif o[0] == 9:
             src = {1: 'sb.toSpan().first', 3: 'str.data()' if kind == 1 else 'sb.c_str()'}.get(o[1], 'sb.c_str()')
             ps.append('append(%s+%d)' % (src, max(o[2], 0)) if o[1] == 2 else 'append(%s+%d,%d) [own text, clamped]' % (src, max(o[2], 0), max(o[3], 0)))
@@ -437,6 +500,22 @@ class Gen:
             return (6, pre, 3, None, self.piece(max(0, L - 1)))
         return (6, pre, 4, r.choice([65, 122, 255, 1, 37]), self.piece(max(0, L - 1)))
 
+    def dbl_op(self, room):
+        """append(double) & co. of a value with a 13/12-character text, a random bit pattern, a random decimal, a small integer"""
+        r = self.rnd
+        x = r.random()
+        if x < 0.35:
+            v = float('%s%d.%05de%s%d' % (r.choice(['-', '-', '']), r.randint(1, 9), r.randint(1, 99999), r.choice(['+', '-']), r.randint(100, 307)))
+            b = bits_of(v)
+        elif x < 0.55:
+            b = r.randint(-2 ** 63, 2 ** 63 - 1)
+        elif x < 0.8:
+            b = bits_of(float('%s%d.%se%d' % (r.choice(['-', '']), r.randint(0, 9), r.randint(0, 10 ** r.randint(1, 8)), r.randint(-12, 12))))
+        else:
+            b = bits_of(float(r.randint(-10 ** 7, 10 ** 7)) / r.choice([1, 1, 2, 10, 1000]))
+        m = r.choice([0, 0, 0, 1, 2, 3])
+        return (10, m, b, g_text(m, b))
+
     def self_op(self, sh, kind, room, spilled):
         """append a slice of the builder's own text; lengths aimed at the room that is left (an inline / array builder
         that spills, a std::string that reallocates) and at the whole text"""
@@ -476,6 +555,13 @@ class Gen:
             big = used < 450
             if used and r.random() < 0.10:
                 o = self.self_op(sh, kind, room, spilled)
+                sh.apply(o)
+                if room is not None and kind in (0, 3) and len(sh.text) > used + room:
+                    spilled = True
+                ops.append(o)
+                continue
+            if r.random() < 0.05:
+                o = self.dbl_op(room)
                 sh.apply(o)
                 if room is not None and kind in (0, 3) and len(sh.text) > used + room:
                     spilled = True
@@ -798,6 +884,68 @@ def int_append_cases():
     return out
 
 
+# ---- append(double) / append(float) / xconvert(std::string&, double) / toString(double) ('double-...') -----------
+# "%g" prints at most 13 characters: sign, six significant digits with the point, e, sign, THREE exponent digits
+# (seeded C17-r15: a local buffer sized for 'd.ddddde+ddd' forgot the sign and cut the last exponent digit of exactly those).
+def double_values():
+    vs = [
+        # 13 characters: negative, six significant digits, three-digit exponent
+        -1.23457e+100, -9.87654e-200, -5e-324, -1.7976931348623157e+308, -2.2250738585072014e-308, -2.2250738585072009e-308,
+        -1.11111e+300, -6.02214e+123, -3.14159e-100, -9.99999e+99 * 10.0, -1.00001e+100, -1.00001e-100, -9.99999e+307,
+        # their positive twins (12 characters) and other three-digit exponents
+        1.23457e+100, 9.87654e-200, 5e-324, 1.7976931348623157e+308, 2.2250738585072014e-308, 2.2250738585072009e-308, 1e+100, -1e+100,
+        1e-100, -1e-100, 1.5e+100, -1.5e+100, 1.25e+100, -1.25e+100, 1.125e-300, -1.125e-300, 1.2345e+200, -1.2345e+200,
+        # two-digit exponents, the e-05 / e+06 switches of the notation, rounding into the next decade
+        1e+99, -1e+99, 9.99999e+99, -9.99999e+99, 9.999995e+99, -9.999995e+99, 9.9999949e-100, 1e+10, -1e+10, 1.5e+10, -1.5e+10, 1.23457e+10,
+        -1.23457e+10, 1e5, 1e6, -1e6, 999999.0, 999999.4, 999999.5, -999999.5, 123456.0, 1234567.0, -123456.0, 123456.5, 100000.5,
+        0.0001, 0.00001, -0.0001, -0.00001, 0.000123456, 0.0000123456, 0.00012345678, 0.000099999949, 0.00009999996,
+        # signed zeros, integers, short fractions
+        0.0, -0.0, 1.0, -1.0, 7.0, 42.0, -42.0, 1.5, -1.5, 0.5, -0.25, 3.14159, -3.14159, 3.1415926535, 2.5e-5, 1234.5, -1234.56, 65536.0,
+        4294967296.0, 9007199254740993.0, 0.1, 1.0 / 3.0, -2.0 / 3.0,
+        # float range limits (append(float))
+        3.4028234663852886e+38, -3.4028234663852886e+38, 1.1754943508222875e-38, -1.401298464324817e-45, 3.5e+38, -1e+39,
+    ]
+    bits = [bits_of(v) for v in vs]
+    # non-finite: inf, -inf, quiet nan with either sign
+    bits += [0x7ff0000000000000, 0xfff0000000000000 - TWO64, 0x7ff8000000000000, 0xfff8000000000000 - TWO64]
+    seen, out = set(), []
+    for b in bits:
+        if b not in seen:
+            seen.add(b)
+            out.append(b)
+    lens = {len(g_text(0, b)) for b in out}
+    assert lens == set(range(1, 14)), lens          # a value at every text length 1..13
+    return out
+
+
+def double_cases():
+    g = Gen(random.Random(23))
+    out = []
+    for b in double_values():
+        for m in (0, 1, 2, 3):
+            t = g_text(m, b)
+            L = len(t)
+            o = (10, m, b, t)
+            tail = [(1, [35])]
+            if m == 0 or L >= 12:
+                shapes = [(0, 0, [], []), (1, 0, [], []), (1, 0, g.piece(20), []), (0, 0, [], [(1, g.piece(SBO - L))]),
+                          (0, 0, [], [(1, g.piece(SBO - L + 1))]), (0, 0, [], [(1, g.piece(70))]),
+                          (2, L + 1, [], []), (2, L, [], []), (2, L + 2, [], []), (2, L + 4, [], [(1, g.piece(3))]), (2, L + 3, [], [(1, g.piece(3))]),
+                          (2, 64, [], []), (2, 0, [], []), (2, 1, [], []), (2, 2, [], []),
+                          (3, L + 1, [], []), (3, L, [], []), (3, 64, [], []), (3, 0, [], []), (3, L + 3, [], [(1, g.piece(3))])]
+            else:
+                shapes = [(0, 0, [], []), (1, 0, g.piece(3), []), (2, L + 1, [], []), (2, L, [], []), (3, L, [], [])]
+            for kind, cap, ini, pre in shapes:
+                out.append((encode(kind, cap, ini, pre + [o] + tail), 'double-%s-len%d' % (('double', 'float', 'xconvert', 'tostring')[m], L)))
+    # several numbers in a row (the text is the concatenation of what was appended)
+    vs = double_values()
+    for i in range(0, len(vs) - 2, 3):
+        ops = [(10, 0, b, g_text(0, b)) for b in vs[i:i + 3]]
+        for kind, cap in ((0, 0), (1, 0), (2, 30), (2, 40), (3, 20)):
+            out.append((encode(kind, cap, [], ops + [(4, -7)]), 'double-sequence'))
+    return out
+
+
 def gen(seed, tier):
     rnd = random.Random(seed * 1000003 + 17)
     total = {'quick': 6000, 'thorough': 300000, 'search': 6000}.get(tier, 6000)
@@ -811,6 +959,9 @@ def gen(seed, tier):
     ints = int_append_cases()
     out += [(c, {'kind': 'int-boundary-' + k}) for c, k in ints]
     total += len(ints)
+    dbls = double_cases()
+    out += [(c, {'kind': k}) for c, k in dbls]
+    total += len(dbls)
     g = Gen(rnd)
     while len(out) < total:
         kind = rnd.choice([0, 1, 2, 2, 2, 3, 3])
@@ -853,6 +1004,8 @@ LEVEL_TEXT = ('Machine-checked refinement proof (Coq): a cell-level model of Str
               '(kind, capacity, text) for every operation sequence, all four kinds and every capacity >= 0; the fixed kind never '
               'faults, keeps the longest prefix that fits and raises ERANGE iff something was cut; the others never lose a byte; '
               'an append whose source is a slice of the builder\'s own text behaves in every reachable state exactly like a foreign append of the same bytes. '
+              'append(double)/append(float) are the formatted piece "%g" (text supplied with the case, the model has no floating point; the implementation\'s text '
+              'is compared with python\'s %g by the oracle). '
               'The model is tied to the code by differential correspondence (extracted model vs. ASan/UBSan build of the real class, '
               'caller arrays between canary blocks) plus an independent shadow-string oracle on the implementation.')
 LEVEL_NOTE = ('Trusted: Coq kernel/vm_compute, extraction+driver (sample cross-checked by vm_compute), harness, translator; '
